@@ -37,6 +37,15 @@ RECURSIVE RmwRun(_, _, _, _)
 RmwRun(p, i, v, ev) == IF i > Len(p) THEN v = ev.final
                        ELSE LET o == ev.ops[p[i]]  e == Effect(v, o.op, o.a, o.b) IN e.res = o.res /\ e.ok = o.ok /\ RmwRun(p, i + 1, e.nv, ev)
 TrRmw == /\ IsEvent("rmw") /\ Consume /\ (\E p \in Perms(Len(Ev.ops)) : RmwRun(p, 1, Ev.init, Ev)) /\ UNCHANGED avars
-TNext == TrEpoch \/ TrCall \/ DoLin \/ TrRet \/ TrMp \/ TrSb \/ TrRmw
+(* compare-and-exchange flow litmus: between init and final the word was changed by successful compare-and-exchange calls only, and
+   Ev.moves counts them per (from, to).  A compare-and-exchange succeeds exactly when the word equals its expected value, so the values
+   the word went through form a walk from init to final whose steps are exactly the successful moves: for every value, arrivals minus
+   departures is 1 for final, -1 for init (0 if they coincide) and 0 otherwise.  (Cancelling a move against its opposite keeps that.) *)
+RECURSIVE NetFlow(_, _, _)
+NetFlow(ms, i, v) == IF i > Len(ms) THEN 0 ELSE (IF ms[i].t = v THEN ms[i].n ELSE 0) - (IF ms[i].f = v THEN ms[i].n ELSE 0) + NetFlow(ms, i + 1, v)
+FlowBalanced(ev) == \A v \in {ev.init, ev.final} \cup {ev.moves[i].f : i \in 1..Len(ev.moves)} \cup {ev.moves[i].t : i \in 1..Len(ev.moves)} :
+                       NetFlow(ev.moves, 1, v) = (IF v = ev.final THEN 1 ELSE 0) - (IF v = ev.init THEN 1 ELSE 0)
+TrFlow == /\ IsEvent("casflow") /\ Consume /\ FlowBalanced(Ev) /\ UNCHANGED avars
+TNext == TrEpoch \/ TrCall \/ DoLin \/ TrRet \/ TrMp \/ TrSb \/ TrRmw \/ TrFlow
 TSpec == TInit /\ [][TNext]_tv
 ====
